@@ -621,3 +621,53 @@ theorem blackRow_error (row : List Nat) (e : Fault) (h : blackRow row = .error e
   · split at h <;> cases h
 
 end Gzx.Binarizer
+
+namespace Gzx.Binarizer
+open Gzx
+
+/-! ## rendering: the bit picture has bit (X, Y) set iff `Set(X, Y)` was called -/
+
+theorem idx_inj (w x y X Y : Nat) (hx : x < w) (hX : X < w) (h : y * w + x = Y * w + X) : x = X ∧ y = Y := by
+  have h1 : (x + y * w) % w = (X + Y * w) % w := by rw [Nat.add_comm x, Nat.add_comm X, h]
+  rw [Nat.add_mul_mod_self_right, Nat.add_mul_mod_self_right, Nat.mod_eq_of_lt hx, Nat.mod_eq_of_lt hX] at h1
+  subst h1
+  have h2 : y * w = Y * w := by omega
+  have hw : 0 < w := by omega
+  exact ⟨rfl, Nat.eq_of_mul_eq_mul_right hw h2⟩
+
+theorem render_fold (w h : Nat) (X Y : Nat) (hX : X < w) (hY : Y < h) (sets : List (Nat × Nat)) :
+    ∀ (a : Array Bool), a.size = w * h →
+      (sets.foldl (fun a (p : Nat × Nat) => if p.1 < w then a.setIfInBounds (p.2 * w + p.1) true else a) a)[Y * w + X]? =
+        some ((a[Y * w + X]?).getD false || decide ((X, Y) ∈ sets)) := by
+  have hi : Y * w + X < w * h := idx_lt w h X Y hX hY
+  induction sets with
+  | nil => intro a ha; simp [ha, hi]
+  | cons p rest ih =>
+    intro a ha
+    obtain ⟨x, y⟩ := p
+    simp only [List.foldl_cons]
+    by_cases hx : x < w
+    · simp only [hx, if_true]
+      rw [ih _ (by simp [ha])]
+      congr 1
+      rw [Array.getElem?_setIfInBounds]
+      by_cases he : y * w + x = Y * w + X
+      · obtain ⟨rfl, rfl⟩ := idx_inj w x y X Y hx hX he
+        simp [ha, hi]
+      · have hne : (X, Y) ≠ (x, y) := by
+          intro hc; cases hc; exact he rfl
+        simp [he, hne]
+    · have hne : (X, Y) ≠ (x, y) := by
+        intro hc; cases hc; exact hx hX
+      simp only [hx, if_false]
+      rw [ih a ha]
+      simp [hne]
+
+theorem render_spec (w h : Nat) (sets : List (Nat × Nat)) (X Y : Nat) (hX : X < w) (hY : Y < h) :
+    (render w h sets)[Y * w + X]? = some (decide ((X, Y) ∈ sets)) := by
+  unfold render
+  rw [render_fold w h X Y hX hY sets _ (by simp)]
+  have hi : Y * w + X < w * h := idx_lt w h X Y hX hY
+  simp [hi]
+
+end Gzx.Binarizer
